@@ -703,7 +703,9 @@ class BaseProxy(_BaseProxy_):
                 self._Client,
                 self._server,
             ),
-            # exitpriority=10,
+            exitpriority=10,
+            # (As in the standard lib.) Proxies that are still alive when the process exits,
+            # e.g. the arguments of a `Process`, give their references back at exit.
         )
 
     # Changes to the original version:
@@ -773,13 +775,15 @@ def RebuildProxy(func, token, serializer, kwds):
     """
     Function used for unpickling proxy objects.
     """
-    incref = kwds.pop('incref', True) and not getattr(
-        current_process(), '_inheriting', False
-    )
+    incref = kwds.pop('incref', True)
     obj = func(token, serializer, incref=incref, **kwds)
     # `func` is either `AutoProxy` or a subclass of `BaseProxy`.
-    # TODO: it appears `incref` is True some times and False some others, affecting by the '_inheriting` condition.
-    # Understand the `'_inheriting'` thing.
+    # Unlike the standard version, this does not skip `incref` while the current process is
+    # "inheriting" (i.e. unpickling the arguments of a `Process` that is being spawned):
+    # `BaseProxy.__reduce__` has incremented the ref count on behalf of this new proxy, hence
+    # this proxy must own that reference and must get the finalizer that gives it back.
+    # Without the finalizer, a proxy passed as an argument to a new process leaked one reference,
+    # and the hosted object (e.g. a shared memory block) was never destroyed.
 
     if incref:
         # Counter the extra `incref` that's done in `BaseProxy.__init__`.
